@@ -27,7 +27,10 @@ use noodles_csi::{
 use noodles_tabix as tabix;
 use vmc::{Chooser, Outcome, Violation};
 
-use crate::util::{pos, vp};
+use crate::{
+    counts::block_on,
+    util::{pos, vp},
+};
 
 // -------------------------------------------------------------------------------------------------
 // writer → reader for the three binning-index formats
@@ -525,6 +528,11 @@ fn names(scheme: usize, n: usize) -> Vec<BString> {
         // 4000 names of 18 bytes + NUL = 76 000 bytes: more than one BGZF block / 64 KiB buffer
         return (0..MANY).map(|i| BString::from(format!("contig_{i:05}_abcdef"))).collect();
     }
+    if scheme == 5 {
+        // valid multibyte UTF-8 (2-, 3- and 4-byte characters), next to an empty-ish and a long name
+        let base = ["chr\u{3b1}", "\u{67d3}\u{8272}\u{4f53}1", "chr\u{1d7d9}", "\u{3b1}", "long_\u{3b1}\u{67d3}\u{1d7d9}_0123456789012345678901234567890123456789"];
+        return (0..n).map(|i| BString::from(if i < base.len() { base[i].to_string() } else { format!("{}{i}", base[i % base.len()]) })).collect();
+    }
     (0..n)
         .map(|i| match scheme {
             0 => BString::from(format!("sq{i}")),
@@ -656,11 +664,13 @@ pub fn body_handbuilt(ch: &Chooser, fmts: &[HFmt]) -> Outcome {
         }
     }
     let unplaced = *ch.pick("n_no_coor", &UNPLACED);
+    let mut names_scheme = 0;
     let header = match fmt {
         HFmt::Bai => None,
         HFmt::Tabix => {
             let hk = ch.dev("header", 7);
-            let ns = ch.dev("names", 5);
+            let ns = ch.dev("names", 6);
+            names_scheme = ns;
             if ns == 4 {
                 // one (empty) reference sequence per name, as tabix prescribes
                 lin_refs.resize_with(MANY, || ReferenceSequence::new(IndexMap::new(), LinearIndex::new(), None));
@@ -673,7 +683,8 @@ pub fn body_handbuilt(ch: &Chooser, fmts: &[HFmt]) -> Outcome {
             if hk == 0 {
                 None
             } else {
-                let ns = ch.dev("names", 5);
+                let ns = ch.dev("names", 6);
+            names_scheme = ns;
                 if ns == 4 {
                     bin_refs.resize_with(MANY, || ReferenceSequence::new(IndexMap::new(), BinnedIndex::new(), None));
                 }
@@ -709,7 +720,13 @@ pub fn body_handbuilt(ch: &Chooser, fmts: &[HFmt]) -> Outcome {
                 b = b.set_unplaced_unmapped_record_count(n);
             }
             let ix = b.build();
-            judge(ch, "tabix", "handbuilt", &describe, &ix, tabix_rt(&ix), &regs)
+            judge(ch, "tabix", "handbuilt", &describe, &ix, tabix_rt(&ix), &regs)?;
+            if names_scheme != 0 {
+                cross_async(ch, "tabix", &describe, &ix, tabix_rt(&ix).map(|x| x.1), tabix_async_write(&ix), |b| tabix::io::Reader::new(b).read_index(), |b| {
+                    block_on(async { tabix::r#async::io::Reader::new(b).read_index().await })
+                })?;
+            }
+            Ok(())
         }
         HFmt::Csi(ms, d) => {
             let mut b = csi::Index::builder().set_min_shift(ms).set_depth(d).set_reference_sequences(bin_refs);
@@ -720,7 +737,85 @@ pub fn body_handbuilt(ch: &Chooser, fmts: &[HFmt]) -> Outcome {
                 b = b.set_unplaced_unmapped_record_count(n);
             }
             let ix = b.build();
-            judge(ch, "csi", "handbuilt", &describe, &ix, csi_rt(&ix), &regs)
+            judge(ch, "csi", "handbuilt", &describe, &ix, csi_rt(&ix), &regs)?;
+            if names_scheme != 0 {
+                cross_async(ch, "csi", &describe, &ix, csi_rt(&ix).map(|x| x.1), csi_async_write(&ix), |b| csi::io::Reader::new(b).read_index(), |b| {
+                    block_on(async { csi::r#async::io::Reader::new(b).read_index().await })
+                })?;
+            }
+            Ok(())
         }
     }
+}
+
+pub fn tabix_async_write(ix: &tabix::Index) -> io::Result<Vec<u8>> {
+    block_on(async {
+        let mut w = tabix::r#async::io::Writer::new(Vec::new());
+        w.write_index(ix).await?;
+        w.shutdown().await?;
+        Ok(w.into_inner().into_inner())
+    })
+}
+
+pub fn csi_async_write(ix: &csi::Index) -> io::Result<Vec<u8>> {
+    block_on(async {
+        let mut w = csi::r#async::io::Writer::new(Vec::new());
+        w.write_index(ix).await?;
+        w.shutdown().await?;
+        Ok(w.into_inner().into_inner())
+    })
+}
+
+/// Every other writer -> reader pair must give what blocking writer -> blocking reader gives:
+/// async writer -> blocking reader, async writer -> async reader (blocking writer -> async reader is part of
+/// `rt_counts_at_caps`/`rt_fs_paths`).
+#[allow(clippy::too_many_arguments)]
+fn cross_async<I>(
+    ch: &Chooser,
+    fmt: &str,
+    describe: &dyn Fn() -> String,
+    _ix: &Index<I>,
+    reference: io::Result<Index<I>>,
+    async_bytes: io::Result<Vec<u8>>,
+    read_blocking: impl Fn(&[u8]) -> io::Result<Index<I>>,
+    read_async: impl Fn(&[u8]) -> io::Result<Index<I>>,
+) -> Outcome
+where
+    I: RsIndex + PartialEq + std::fmt::Debug,
+{
+    let Ok(reference) = reference else { return Ok(()) };
+    let bytes = match async_bytes {
+        Ok(b) => b,
+        Err(e) => {
+            return Err(Violation::new(
+                format!("part=roundtrip fmt={fmt} source=handbuilt writer=async what=write-error kind={:?}", e.kind()),
+                describe(),
+                "Ok (the blocking writer accepts this index)",
+                e.to_string(),
+            ));
+        }
+    };
+    ch.tag("async-writer-crossed");
+    for (rname, got) in [("blocking", read_blocking(&bytes)), ("async", read_async(&bytes))] {
+        match got {
+            Ok(back) if back == reference => {}
+            Ok(back) => {
+                return Err(Violation::new(
+                    format!("part=roundtrip fmt={fmt} source=handbuilt writer=async reader={rname} what=differs-from-blocking-writer-and-reader"),
+                    describe(),
+                    format!("header {:?}, {} reference sequences", reference.header(), reference.reference_sequences().len()),
+                    format!("header {:?}, {} reference sequences", back.header(), back.reference_sequences().len()),
+                ));
+            }
+            Err(e) => {
+                return Err(Violation::new(
+                    format!("part=roundtrip fmt={fmt} source=handbuilt writer=async reader={rname} what=read-error kind={:?}", e.kind()),
+                    describe(),
+                    "Ok (blocking writer -> blocking reader succeeds)",
+                    e.to_string(),
+                ));
+            }
+        }
+    }
+    Ok(())
 }
